@@ -138,7 +138,8 @@ def _queue_ctx(node, chosen=None):
     """per priority class: [(id, waiting?, arrival ticks)] in list order."""
     out = []
     for q in node.individuals:
-        out.append([(i.id_number, 1 if ((not i.server) or i is chosen) else 0, tk(i.arrival_date)) for i in q])
+        out.append([(i.id_number, 1 if (((not i.server) and i.service_start_date is False) or i is chosen) else 0,
+                     tk(i.arrival_date)) for i in q])
     return out
 
 
